@@ -63,7 +63,22 @@ func H_c13(p []int) {
 	variant, which, pos, n := p[0], p[1], p[2], p[3]
 	codes := p[4:]
 	ops := make([]opRec, 0, len(codes))
-	for _, c := range codes {
+	for k, c := range codes {
+		if n >= 1000 {
+			// a long validated prefix first (the buffer's storage is large and
+			// has spare capacity), then payloads that leave a marker and a line
+			// feed pending
+			if k == 0 {
+				o := opRec{code: c, bs: make([]byte, n-1000)}
+				for j := range o.bs {
+					o.bs[j] = 'x'
+				}
+				ops = append(ops, o)
+			} else {
+				ops = append(ops, mkOp(c, 111)) // template ".sn"
+			}
+			continue
+		}
 		ops = append(ops, mkOp(c, n))
 	}
 	vSite(fmt.Sprintf("variant=%d which=%d pos=%d", variant, which, pos))
